@@ -34,6 +34,8 @@ func main() {
 	replay := flag.String("replay", "", "replay file: re-check and report the status of that obligation")
 	findingsPath := flag.String("findings", "", "known-findings file (default <out>/known_findings.json)")
 	list := flag.Bool("list", false, "list obligations")
+	dumpFns := flag.Bool("dump-fns", false, "print the names of the declared functions of the module (for an/known_fns.txt)")
+	dumpCFG := flag.String("dump-cfg", "", "print the (spliced) control-flow graph of the named function and exit")
 	meta := flag.Bool("meta", false, "print the rule metadata of all properties as JSON and exit")
 	flag.Parse()
 	if *meta {
@@ -45,6 +47,35 @@ func main() {
 		}
 		b, _ := json.MarshalIndent(out, "", " ")
 		fmt.Println(string(b))
+		return
+	}
+	if *dumpCFG != "" {
+		prog, err := an.Load(*repo, nil)
+		if err != nil {
+			fmt.Fprintf(os.Stderr, "jetverif: %v\n", err)
+			os.Exit(2)
+		}
+		if f := prog.Fn(*dumpCFG); f != nil {
+			fmt.Print(prog.DumpSpliced(f))
+		} else {
+			fmt.Fprintf(os.Stderr, "no function %q\n", *dumpCFG)
+		}
+		return
+	}
+	if *dumpFns {
+		prog, err := an.Load(*repo, nil)
+		if err != nil {
+			fmt.Fprintf(os.Stderr, "jetverif: %v\n", err)
+			os.Exit(2)
+		}
+		for _, f := range prog.Fns {
+			if f.Decl != nil {
+				fmt.Println(f.Name)
+				if f.DeclName != "" {
+					fmt.Println(f.DeclName)
+				}
+			}
+		}
 		return
 	}
 	if env := os.Getenv("VERIF_TIER"); env != "" && *tier == "quick" && (env == "quick" || env == "thorough") {
